@@ -302,7 +302,8 @@ def run(case):
             for r_ in rows:
                 groups.setdefault(norm(r_[IX[col]]), []).append([norm(v) for v in r_])
             ids = [g[IX[col]] for g in got]
-            if not out.check(ids == sorted(groups.keys()), "dropdup:not_exactly_one_row_per_id", f"step {step}: ids {ids[:10]} vs {sorted(groups.keys())[:10]}"):
+            # exactly one row per id; in which order the survivors come is not part of the statement
+            if not out.check(sorted(ids) == sorted(groups.keys()), "dropdup:not_exactly_one_row_per_id", f"step {step}: ids {ids[:10]} vs {sorted(groups.keys())[:10]}"):
                 return out
             newrows = []
             for g in got:
@@ -366,7 +367,7 @@ def run(case):
                 for pos, e in cat:
                     groups.setdefault(e[IX["subtomo_id"]], []).append(e)
                 ids = [g[IX["subtomo_id"]] for g in got]
-                if not out.check(ids == sorted(groups.keys()), "merge_dropdup:not_exactly_one_row_per_id", f"step {step}: {ids[:8]} vs {sorted(groups.keys())[:8]}"):
+                if not out.check(sorted(ids) == sorted(groups.keys()), "merge_dropdup:not_exactly_one_row_per_id", f"step {step}: {ids[:8]} vs {sorted(groups.keys())[:8]}"):
                     return out
                 skip = {IX["object_id"]}
                 for g in got:
